@@ -2,11 +2,11 @@ module verifharness
 
 go 1.21
 
-require github.com/oasisprotocol/curve25519-voi v0.0.0
-
 require (
-	golang.org/x/crypto v0.0.0-20220321153916-2c7772ba3064 // indirect
-	golang.org/x/sys v0.0.0-20220325203850-36772127a21f // indirect
+	github.com/oasisprotocol/curve25519-voi v0.0.0
+	golang.org/x/crypto v0.0.0-20220321153916-2c7772ba3064
 )
+
+require golang.org/x/sys v0.0.0-20220325203850-36772127a21f // indirect
 
 replace github.com/oasisprotocol/curve25519-voi => /repo
